@@ -653,7 +653,29 @@ func (in *Interp) global(g *ssa.Global) *Cell {
 	}
 	c.V = in.zero(deref(g.Type()))
 	in.globals[g] = c
+	// error variables of packages whose initialisers are not run (io.EOF, fs.SkipDir, os.ErrNotExist, ...):
+	// at run time each is a distinct non-nil error; the well-known aliases share one object
+	if g.Pkg != nil && !strings.HasPrefix(g.Pkg.Pkg.Path(), repoMod) && types.Identical(deref(g.Type()), types.Universe.Lookup("error").Type()) {
+		path, name := g.Pkg.Pkg.Path(), g.Name()
+		if ap, ok := errorVarAliases[path+"."+name]; ok {
+			if tp := in.W.ssaPkgs[ap[0]]; tp != nil {
+				if tg, ok := tp.Members[ap[1]].(*ssa.Global); ok {
+					c.V = in.global(tg).V
+					return c
+				}
+			}
+		}
+		c.V = in.newError(path + "." + name)
+	}
 	return c
+}
+
+var errorVarAliases = map[string][2]string{
+	"path/filepath.SkipDir": {"io/fs", "SkipDir"}, "path/filepath.SkipAll": {"io/fs", "SkipAll"},
+	"os.ErrInvalid": {"io/fs", "ErrInvalid"}, "os.ErrPermission": {"io/fs", "ErrPermission"}, "os.ErrExist": {"io/fs", "ErrExist"},
+	"os.ErrNotExist": {"io/fs", "ErrNotExist"}, "os.ErrClosed": {"io/fs", "ErrClosed"},
+	"io/fs.ErrInvalid": {"internal/oserror", "ErrInvalid"}, "io/fs.ErrPermission": {"internal/oserror", "ErrPermission"},
+	"io/fs.ErrExist": {"internal/oserror", "ErrExist"}, "io/fs.ErrNotExist": {"internal/oserror", "ErrNotExist"}, "io/fs.ErrClosed": {"internal/oserror", "ErrClosed"},
 }
 
 func deref(t types.Type) types.Type {
